@@ -1,1 +1,45 @@
-// harnesses for object (included into loom under cfg(loom_verif))
+// crate::rt::object::verif -- C10: the end-of-iteration leak scan.
+#![allow(dead_code, unused_imports)]
+
+use super::*;
+use crate::rt::verif::vharness;
+#[cfg(not(kani))]
+use crate::rt::verif::kani_shim as kani;
+
+/// A store holding [Alloc, Arc, Mutex, Channel] entries with symbolic
+/// leak-relevant fields; returns (store, reference verdict "something leaked").
+fn any_store() -> (Store, bool) {
+    let mut st: Store = Store::with_capacity(4);
+    let dropped: bool = kani::any();
+    let cnt: usize = kani::any();
+    let msgs: usize = kani::any();
+    st.insert(rt::alloc::verif::mk(dropped));
+    st.insert(rt::arc::verif::mk(cnt));
+    st.insert(rt::mutex::verif::mk_unlocked());
+    st.insert(rt::mpsc::verif::mk(msgs));
+    let leaked = !dropped || cnt != 0 || msgs != 0;
+    (st, leaked)
+}
+
+vharness! {
+    /// @prop C10 @tier quick @mode fast @funcs object::Store::check_for_leaks,alloc::State::check_for_leaks,arc::State::check_for_leaks,mpsc::State::check_for_leaks @bounds store of 4 entries [Alloc,Arc,Mutex,Channel], all values of is_dropped / ref_cnt / msg_cnt
+    /// no false leak report: when every allocation is dropped, every Arc count is zero and every channel is empty, the scan returns.
+    fn leak_scan_no_false_report() {
+        let (st, leaked) = any_store();
+        kani::assume(!leaked);
+        st.check_for_leaks();
+        kani::cover!(true, "scan returned");
+        std::mem::forget(st);
+    }
+}
+
+vharness! {
+    /// @prop C10 @tier quick @mode fast @funcs object::Store::check_for_leaks @must_fail "leaked" @bounds store of 4 entries [Alloc,Arc,Mutex,Channel], all values of is_dropped / ref_cnt / msg_cnt
+    /// no missed leak: when some allocation is not dropped, some Arc count is positive or some channel holds messages, the scan never returns normally.
+    fn leak_scan_no_missed_report() {
+        let (st, leaked) = any_store();
+        kani::assume(leaked);
+        st.check_for_leaks();
+        assert!(false, "VERIF_MARKER: check_for_leaks returned although an object is leaked");
+    }
+}
